@@ -238,3 +238,63 @@ pub fn case_begin(i: u64) {
 pub fn case_end() {
     CASE_INDEX.store(u64::MAX, Ordering::Relaxed);
 }
+
+
+/// A request/response worker process (`mc worker <args>` reading one JSON request per line on
+/// stdin, answering one JSON line through `emit`). It is replaced by a new process after
+/// `recycle_after` requests, so that memory the interpreter never frees (Rc cycles of library
+/// instances) is returned to the system. A worker that dies answers with Err.
+pub struct ProcWorker {
+    args: Vec<String>,
+    recycle_after: usize,
+    served: usize,
+    child: Option<(std::process::Child, std::process::ChildStdin, BufReader<std::process::ChildStdout>)>,
+}
+
+impl ProcWorker {
+    pub fn new(args: Vec<String>, recycle_after: usize) -> ProcWorker {
+        ProcWorker { args, recycle_after, served: 0, child: None }
+    }
+    fn stop(&mut self) {
+        if let Some((mut c, stdin, _)) = self.child.take() {
+            drop(stdin);
+            let _ = c.kill();
+            let _ = c.wait();
+        }
+        self.served = 0;
+    }
+    fn ensure(&mut self) -> Result<(), String> {
+        if self.child.is_some() && self.served >= self.recycle_after {
+            self.stop();
+        }
+        if self.child.is_none() {
+            let mut c = Command::new(frozen_exe()).arg("worker").args(&self.args).stdin(Stdio::piped()).stdout(Stdio::piped()).stderr(Stdio::null()).spawn().map_err(|e| format!("spawn worker: {}", e))?;
+            let stdin = c.stdin.take().unwrap();
+            let stdout = BufReader::new(c.stdout.take().unwrap());
+            self.child = Some((c, stdin, stdout));
+        }
+        Ok(())
+    }
+    pub fn request(&mut self, req: &J) -> Result<J, String> {
+        use std::io::Write;
+        self.ensure()?;
+        let (child, stdin, stdout) = self.child.as_mut().unwrap();
+        let sent = stdin.write_all(req.to_string().as_bytes()).and_then(|_| stdin.write_all(b"\n")).and_then(|_| stdin.flush());
+        let mut line = String::new();
+        let got = if sent.is_ok() { stdout.read_line(&mut line).unwrap_or(0) } else { 0 };
+        self.served += 1;
+        if got == 0 {
+            let status = child.wait().map(|s| format!("{:?}", s)).unwrap_or_else(|e| e.to_string());
+            self.child = None;
+            self.served = 0;
+            return Err(format!("worker process ended while serving the request ({})", status));
+        }
+        serde_json::from_str(line.trim()).map_err(|e| format!("worker answer does not parse: {} in {:?}", e, line))
+    }
+}
+
+impl Drop for ProcWorker {
+    fn drop(&mut self) {
+        self.stop();
+    }
+}
